@@ -95,6 +95,10 @@ const maxReplayLen = 1 << 16
 func replayOblig(o *Oblig, prop string, workdir string) *ReplayRecord {
 	rec := &ReplayRecord{Property: prop, Obligation: o.Name, Kind: o.Kind, Function: o.Fn, Clause: o.Clause, Pos: o.Pos,
 		Status: o.Status, Solver: o.Solver, SolverOutput: truncate(o.Output, 4000), Verdict: "no-failing-input-found", SmtFile: o.SmtFile}
+	if o.Kind == "translation" {
+		rec.Reason = "the function under contract can no longer be translated: " + o.Output
+		return rec
+	}
 	if o.gen == nil {
 		rec.Reason = "frame obligation decided syntactically on the SSA (no solver model): " + o.Output
 		// a per-function template may demonstrate the write on the real code (e.g. under the race detector)
